@@ -8,6 +8,7 @@ pub mod c03;
 pub mod c04;
 pub mod c05;
 pub mod c06;
+pub mod c09;
 
 pub struct Prop {
     pub id: &'static str,
@@ -24,6 +25,7 @@ pub fn all() -> Vec<Prop> {
         Prop { id: "C04", level: "exploration", run: c04::run, replay: c04::replay },
         Prop { id: "C05", level: "exploration", run: c05::run, replay: c05::replay },
         Prop { id: "C06", level: "exploration", run: c06::run, replay: c06::replay },
+        Prop { id: "C09", level: "exploration", run: c09::run, replay: c09::replay },
     ]
 }
 
